@@ -5,8 +5,9 @@ src/linters/dry/deduplicator.py, violation_filter.py, block_grouper.py.
 Top-level spec (property text): "the occurrence count in the message is the number of distinct, NON-OVERLAPPING places
 where the block occurs" and "every occurrence is covered by a violation": of the blocks of one file that share a hash,
 the ones kept are pairwise non-overlapping, every kept block is one of the input blocks, and every dropped block
-overlaps (shares a line with) a kept one. The same must hold for the violation-level filter with the RANGE
-[line, line + line_count - 1] of each violation (expected to fail: known finding C03-violation-overlap-length).
+overlaps (shares a line with) a kept one. The same holds for the violation-level filter with the RANGE
+[line, line + line_count - 1] of each violation (since the fix of C03-violation-overlap-length: the kept violation is
+measured with its OWN line count).
 `sorted(xs, key=...)` is a trusted external contract of the engine: same length, same members, ordered by key."""
 from pyvc.api import (contract, lemma, Int, Bool, Str, SeqOf, TupleOf, Opt, Rec, implies, call, ih, opaque, reveal, use,
                       is_sorted, sorted_member_fact, mk)
@@ -192,8 +193,9 @@ class FilterExtractLineCount:
 
 
 def voverlap(v1, v2):
-    """What ViolationFilter._overlaps computes: v1 starts before v2's start plus the line count of V1 (sic)."""
-    return (v1.line or 0) < (v2.line or 0) + line_count_of(v1.message, 5)
+    """ViolationFilter._overlaps: v1 (later) starts before the end of the kept block v2, i.e. before v2's start plus
+    v2's own line count."""
+    return (v1.line or 0) < (v2.line or 0) + line_count_of(v2.message, 5)
 
 
 @contract(VFI + "_overlaps", props=["C03"], types=dict(v1=ViolationT, v2=ViolationT), returns=Bool)
@@ -239,37 +241,11 @@ def vrange_intersect(a, b):
     return ranges_intersect(a.line, a.line + vcount(a) - 1, b.line, b.line + vcount(b) - 1)
 
 
-def dry_violation(line, count, path):
-    """A violation as DRYViolationBuilder writes it (message format of _build_message)."""
-    return mk(ViolationT, rule_id="dry.duplicate-code", file_path=path, line=line, column=1,
-              message=f"Duplicate code ({count} lines, 2 occurrences)", severity="error", suggestion=None)
-
-
-@lemma(props=["C03"], types=dict(la=Int, ca=Int, lb=Int, cb=Int), name="violation-filter-drops-only-covered")
-def violation_filter_covered(la, ca, lb, cb):
-    """Property (needed for 'every occurrence is covered by a violation'), smallest instance: of two violations of
-    one file, sorted by line, reporting ca lines from la and cb lines from lb, the second one may be dropped only if its
-    line RANGE [lb, lb+cb-1] intersects the range [la, la+ca-1] of the first (kept) one.
-    EXPECTED TO FAIL: known finding C03-violation-overlap-length (_overlaps measures the kept block with cb)."""
-    if not (1 <= la and la <= lb and ca >= 1 and cb >= 1 and ca < 100 and cb < 100):
-        return True
-    a = dry_violation(la, ca, "f.py")
-    b = dry_violation(lb, cb, "f.py")
-    r = call(VFI + "filter_overlapping", mk(FilterT), [a, b])
-    reveal(vgreedy, [a, b], [])
-    reveal(vgreedy, [b], [a])
-    reveal(vgreedy, [], [a])
-    reveal(vgreedy, [], [a, b])
-    reveal(line_count_of, a.message, 5)
-    reveal(line_count_of, b.message, 5)
-    return len(r) == 2 or ranges_intersect(la, la + ca - 1, lb, lb + cb - 1)
-
-
-@lemma(props=["C03"], types=dict(a=ViolationT, b=ViolationT), name="violation-filter-drops-only-covered-adjusted")
-def violation_filter_covered_adjusted(a, b):
-    """Finding-adjusted: the second violation is dropped exactly when it starts before first.line + ITS OWN line count;
-    whenever the kept block is at least as long as the dropped one this does imply that the ranges intersect. Any other
-    deviation (dropping a violation that starts later, keeping an overlapping one) is still a violation."""
+@lemma(props=["C03"], types=dict(a=ViolationT, b=ViolationT), name="violation-filter-drops-only-covered")
+def violation_filter_covered(a, b):
+    """Property (needed for 'every occurrence is covered by a violation'), two violations of one file sorted by line:
+    the first is always kept; the second is dropped exactly when its line RANGE [line, line + count - 1] intersects
+    the range of the first (kept) one -- never otherwise. (Was refuted before fix C03-violation-overlap-length.)"""
     if not (1 <= a.line and a.line <= b.line and vcount(a) >= 1 and vcount(b) >= 1):
         return True
     r = call(VFI + "filter_overlapping", mk(FilterT), [a, b])
@@ -277,11 +253,20 @@ def violation_filter_covered_adjusted(a, b):
     reveal(vgreedy, [b], [a])
     reveal(vgreedy, [], [a])
     reveal(vgreedy, [], [a, b])
-    return r[0] == a and len(r) == (1 if b.line < a.line + vcount(b) else 2) and implies(len(r) == 2, r[1] == b) \
-        and implies(len(r) == 1 and vcount(a) >= vcount(b), vrange_intersect(a, b))
+    return r[0] == a and (len(r) == 1 or len(r) == 2) and implies(len(r) == 2, r[1] == b) \
+        and (len(r) == 1) == vrange_intersect(a, b)
 
 
-# ---- general (any length) facts about the violation-level filter, with the relation the code uses
+@lemma(props=["C03"], types=dict(x=ViolationT, k=ViolationT), name="violation-overlap-is-range-intersection")
+def violation_overlap_is_range_intersection(x, k):
+    """For a kept violation k that does not start after x (input sorted by line), the relation the filter tests is
+    exactly 'the two reported line ranges share a line'."""
+    if not (k.line <= x.line and vcount(k) >= 1 and vcount(x) >= 1 and k.line != 0 and x.line != 0):
+        return True
+    return call(VFI + "_overlaps", mk(FilterT), x, k) == vrange_intersect(x, k)
+
+
+# ---- general (any length) facts about the violation-level filter
 @lemma(props=["C03"], types=dict(l=Violations, b=ViolationT), name="v-append-head-tail")
 def v_append_head_tail(l, b):
     return implies(len(l) > 0, (l + [b])[0] == l[0] and (l + [b])[1:] == l[1:] + [b])
@@ -314,7 +299,7 @@ def vgreedy_extends(s, kept, x):
         implies(any(voverlap(x, k) for k in kept), any(voverlap(x, k) for k in vgreedy(s, kept)))
 
 
-@lemma(props=["C03"], types=dict(s=Violations, kept=Violations, x=ViolationT), name="vfilter-is-maximal-for-the-code-relation")
+@lemma(props=["C03"], types=dict(s=Violations, kept=Violations, x=ViolationT), name="vfilter-is-maximal")
 def vgreedy_maximal(s, kept, x):
     reveal(vgreedy, s, kept)
     return (len(s) == 0 or (ih(vgreedy_maximal, s[1:], kept, x) and ih(vgreedy_maximal, s[1:], kept + [s[0]], x)
@@ -324,11 +309,10 @@ def vgreedy_maximal(s, kept, x):
         implies(x in s, x in vgreedy(s, kept) or any(voverlap(x, k) for k in vgreedy(s, kept)))
 
 
-@lemma(props=["C03"], types=dict(vs=Violations, x=ViolationT), name="violation-filter-sound-and-code-maximal")
+@lemma(props=["C03"], types=dict(vs=Violations, x=ViolationT), name="violation-filter-sound-and-maximal")
 def violation_filter_general(vs, x):
-    """Finding-adjusted, any length: only input violations are returned, and a violation is dropped only if it starts
-    before (kept.line + its own line count) for some kept violation -- the relation of finding
-    C03-violation-overlap-length; nothing else is ever dropped."""
+    """Any length: only input violations are returned, and a violation is dropped only if it starts before the end
+    (line + own line count) of some kept violation; nothing else is ever dropped."""
     r = call(VFI + "filter_overlapping", mk(FilterT), vs)
     use(vgreedy_members, vs, [], x)
     use(vgreedy_maximal, vs, [], x)
@@ -689,7 +673,7 @@ def vhas_group(groups, v):
 
 
 def v_same_file_cover(x, l):
-    """Some violation of l lies in x's file and stands in the code's overlap relation (finding C03-violation-overlap-length) to x."""
+    """Some violation of l lies in x's file and x starts before its end (the filter's overlap relation)."""
     return any(voverlap(x, y) and y.file_path == x.file_path for y in l)
 
 
@@ -858,11 +842,11 @@ def vdedup_cover(groups, blocks, x):
                    x in vdedup_pairs(groups) or v_same_file_cover(x, vdedup_pairs(groups)))
 
 
-@lemma(props=["C03"], types=dict(blocks=Violations, x=ViolationT), name="deduplicate-violations-sound-and-code-covering")
+@lemma(props=["C03"], types=dict(blocks=Violations, x=ViolationT), name="deduplicate-violations-sound-and-covering")
 def deduplicate_violations_property(blocks, x):
-    """Finding-adjusted, violation level, all files: deduplicate_violations returns only input violations, and an input
-    violation is dropped only because a returned violation OF THE SAME FILE stands in the code's overlap relation to it
-    (x.line < kept.line + x's own line count, finding C03-violation-overlap-length); nothing else is ever dropped."""
+    """Violation level, all files: deduplicate_violations returns only input violations, and an input violation is
+    dropped only because it starts before the end of a returned violation OF THE SAME FILE (which, the input being
+    sorted by line per file, means that their reported ranges share a line); nothing else is ever dropped."""
     r = call(D + "deduplicate_violations", mk(DedupT), blocks)
     g = call(BG + "group_violations_by_file", mk(GrouperT), blocks)
     reveal(vdedup_groups, [])
